@@ -477,7 +477,10 @@ def sched_wait(futures: Any, timeout: Any = None, return_when: Any = None) -> tu
     return done, futures - done
 
 
-def install_copy_points() -> None:
+_copy_points_on = True
+
+
+def install_copy_points(enabled: bool = True) -> None:
     """A real interpreter may switch threads anywhere inside copy.deepcopy (pure Python code). The
     copy module itself is not instrumented (thousands of lines per call); instead the deep copy of
     every FrozenTrial is a scheduling point: that is the granularity at which a half-taken snapshot
@@ -486,12 +489,14 @@ def install_copy_points() -> None:
 
     from optuna.trial import FrozenTrial
 
+    global _copy_points_on
+    _copy_points_on = enabled
     if getattr(FrozenTrial, "_vf_copy_point", False):
         return
 
     def __deepcopy__(self: Any, memo: dict) -> Any:
         s = _ACTIVE
-        if s is not None:
+        if s is not None and _copy_points_on:
             s.point("deepcopy")
         cls = self.__class__
         new = cls.__new__(cls)
